@@ -204,12 +204,20 @@ META = {
         'text': 'Coq theorems, all unbounded in n and m: (1) the checker sat_or_flagged is sound (accepted => every constraint not flagged holds '
                 'within the tolerance, equalities tight); (2) the Bellman-Ford style detector decides feasibility with a proof in both directions '
                 '(PosCycle => no placement satisfies the constraints; Potentials => the returned potentials, divided by the scales, satisfy all of them); '
-                '(3) invariants of the executable IncSolver model listed in Properties/C01.v (partial where named _partial). '
+                '(3) the executable IncSolver model (Properties/C01.v): the invariant inv = book + act_inv (active => same block, tight) + forest (the active '
+                'constraints of a block form a spanning tree of it) + trichotomy (every constraint exactly one of active / flagged / in the work-list) holds '
+                'for a fresh solver and is preserved by every op of every history (merge, Block::split incl. populateSplitBlock from both ends, findMinLMBetween '
+                'returns a separating constraint, splitBlocks, satisfy, solve, addConstraint, desired-position changes); consequences proved for all histories: '
+                'C01_sat_on_return_history (every returned state: unflagged constraints >= -1e-10, active constraints and unflagged equalities exactly 0), '
+                'C01_no_final_throw / C01_step_never_throws (satisfy/solve never return the final-scan throw; OutOfFuel excluded), C01_no_division_by_zero '
+                '(A2 > 0 and A2 = sum over the block in every reachable state); the boolean versions of these invariants are evaluated by the extracted model on '
+                'every state it visits on every run (evidence key model_invariants). '
                 'The tie to /repo is the extracted model run against libvpsc and the libavoid copy on every run, plus the verified oracles deciding '
                 'every real solve()/satisfy() return (unflagged => satisfied to 1e-6, finite, inequality-only: flagged <=> positive cycle).',
         'design_ref': 'DESIGN.md 5.1, Appendix A'},
     'level_note': 'Trusted: Coq kernel; extraction (ExtrOcamlBasic) + OCaml driver; C++ harness; exact-rational model of binary64 (ties detected and '
                   'counted). Not proved: termination of satisfy()/solve(); that the real code refines the model (checked by correspondence on every run, '
-                  'not proved); full WF preservation for split (see the _partial statements). Static Solver: verified oracles only (no model).',
+                  'not proved); C01_flag_sound (flagged => infeasible) for the model is not proved (decided per run by the verified positive-cycle detector). '
+                  'Static Solver: verified oracles only (no model).',
     'technique': 'Coq proof of verified oracles and model invariants + extracted-model correspondence against libvpsc and libavoid/vpsc.cpp',
 }
